@@ -619,6 +619,59 @@ fn main_check(ctx: &Ctx) -> Outcome {
         acc = acc.merge(a);
     }
 
+    // (6) call histories: the result may depend on nothing but the argument.  Every ordered pair of inputs (and every
+    //     triple over a smaller set) is parsed in order on a fresh thread and every answer compared with the model.
+    {
+        let hist: Vec<&str> = vec![
+            "", "bold", "red", "red blue", "red blue green", "bold red nobold", "nobold", "no-ul", "ul", "#abc", "#a1b2c3", "#12", "255", "256", "normal",
+            "bold x", "x", "red blue #123 bold", "reverse no-reverse reverse", "BOLD ITALIC", "dim  strike", "-1", "normal normal bold", "blink noblink blink noblink",
+        ];
+        let small: Vec<&str> = vec!["", "bold", "nobold", "red", "red blue green", "x", "#abc", "ul no-ul"];
+        let mut histories: Vec<Vec<&str>> = vec![];
+        for a in &hist {
+            for b in &hist {
+                histories.push(vec![a, b]);
+            }
+        }
+        for a in &small {
+            for b in &small {
+                for c in &small {
+                    histories.push(vec![a, b, c]);
+                }
+            }
+        }
+        let a = histories
+            .par_iter()
+            .map(|h| {
+                let h = h.clone();
+                let colref = &col;
+                std::thread::scope(|sc| {
+                    sc.spawn(move || {
+                        let mut acc = Acc::default();
+                        for (i, input) in h.iter().enumerate() {
+                            acc.evals += 1;
+                            if let Err((clause, msg)) = check_one(input, true) {
+                                colref.push(Finding {
+                                    system: "call histories on one thread".to_string(),
+                                    clause: clause.to_string(),
+                                    case: vec![format!("{:?} then {input:?}", &h[..i])],
+                                    message: format!("after the calls {:?} on the same thread: {msg}", &h[..i]),
+                                    replay: json!({"kind": "history", "inputs": h.iter().map(|x| hex(x.as_bytes())).collect::<Vec<_>>()}),
+                                });
+                                break;
+                            }
+                        }
+                        acc
+                    })
+                    .join()
+                    .unwrap_or_default()
+                })
+            })
+            .reduce(Acc::default, Acc::merge);
+        out.push_part(json!({"part":"6","system":"call histories (pairs over 24 inputs, triples over 8) on a fresh thread each","histories":histories.len(),"cases":a.evals}));
+        acc = acc.merge(a);
+    }
+
     let (findings, total, per_clause) = col.finish();
     out.findings.extend(findings);
     out.set("violating_cases_total", json!(total));
@@ -657,6 +710,17 @@ fn replay(v: &serde_json::Value) -> Result<(), String> {
             let b = unhex(v["input"].as_str().ok_or("missing input")?);
             let s = String::from_utf8(b).map_err(|e| e.to_string())?;
             check_one(&s, true).map(|_| ()).map_err(|(c, m)| format!("{c}: {m}"))
+        }
+        "history" => {
+            let inputs: Vec<String> = v["inputs"].as_array().ok_or("missing inputs")?.iter().map(|x| String::from_utf8(unhex(x.as_str().unwrap_or(""))).unwrap_or_default()).collect();
+            std::thread::spawn(move || {
+                for i in &inputs {
+                    check_one(i, true).map(|_| ()).map_err(|(c, m)| format!("{c}: {m}"))?;
+                }
+                Ok(())
+            })
+            .join()
+            .map_err(|_| "history thread panicked".to_string())?
         }
         "roundtrip" => {
             let gs = GitStyle {
